@@ -35,6 +35,18 @@
 //!                    `item` as the variable of for/some/every (L4)
 //!   escape           every escape form (both digit cases) over boundary code points and a
 //!                    stratified sample; simple escapes; malformed escapes
+//!   string           every spelling of every string: the body of a literal as a sequence of pieces (raw character,
+//!                    simple escape, `\uXXXX` / `\UXXXXXX` with digits in either case, surrogate pair, backslash
+//!                    before a character that begins no escape = two ordinary characters): a backslash before
+//!                    EVERY ASCII character and 22 others at the start / middle / end / alone / twice / after `\\`,
+//!                    every character written as itself, every code point form next to hexadecimal digits, random
+//!                    sequences of pieces; vertical space written as itself is refused; expectation written out
+//!                    piece by piece, `Dmn.StringLit` (the Lean reading) and `Lexer.consumeString` asked as well
+//!   wide             35 constructs that take a sequence (list items, arguments, named arguments, context entries,
+//!                    formal parameters, in-lists, iteration / quantified contexts, unary tests, context and function
+//!                    type entries, qualified names) or chain (every binary operator level, unary minus, path, filter,
+//!                    invocation, nested parentheses / lists / contexts / else-if) at lengths 1 … 1025 (thorough:
+//!                    … 5000) around every power of two, 99-101, 199-201, 1000: the flat tree written out
 //!   extended         what is still outside `Dmn.Ref.Tree` (typed parameters, external bodies,
 //!                    generic types, unary-tests start symbols) mixed with everything else:
 //!                    print∘parse round trip on the real parser with the harness' own printer
@@ -2494,6 +2506,220 @@ pub fn run(cfg: &Cfg) -> Report {
     }
   }
 
+  // ---------------------------------------------------------------- string literals: every spelling of every string
+  // The body of a literal is a sequence of pieces (grammar rules 35, 64, 65): a raw character, a simple escape, a code
+  // point in one of three forms (hex digits in either case, digit by digit), or a backslash before a character that
+  // begins no escape — then the backslash and the character are two ordinary characters.  The expectation is written out
+  // piece by piece here; `Dmn.StringLit` (the Lean reading of the same rules, what `string_literal_roundtrip` is about)
+  // and `Dmn.Lexer.consumeString` (the lexer model) are asked about every case as well.
+  {
+    let mut str_rng = rng.fork();
+    // (family bucket, pieces, None = the literal is no literal: a vertical space written as itself)
+    let mut lits: Vec<(&'static str, Vec<SP>, Option<String>)> = vec![];
+    let extras: [u32; 22] = [0x80, 0x85, 0xA0, 0xD6, 0xD7, 0xE9, 0x3A9, 0x7FF, 0x800, 0x2028, 0x2029, 0x20AC, 0xD7FF, 0xE000, 0xFEFF, 0xFFFD, 0xFFFF, 0x10000, 0x1F64F, 0xEFFFF, 0x100000, 0x10FFFF];
+    let all_chars: Vec<u32> = (0u32..0x80).chain(extras.iter().copied()).collect();
+    let x = SP::Raw('x' as u32);
+    let y = SP::Raw('y' as u32);
+    for &c in &all_chars {
+      // `\` before every character, at the start / in the middle / at the end of the literal, alone, twice, after `\\`
+      match after_backslash(c) {
+        Some(p) => {
+          let bucket = if matches!(p, SP::Bs(_)) { "string:backslash-other" } else { "string:simple-escape" };
+          for ps in [
+            vec![p.clone()],
+            vec![p.clone(), x.clone(), y.clone()],
+            vec![x.clone(), p.clone(), y.clone()],
+            vec![x.clone(), y.clone(), p.clone()],
+            vec![p.clone(), p.clone()],
+            vec![SP::Simple('\\'), p.clone()],
+            vec![p.clone(), SP::Simple('"')],
+            vec![p.clone(), SP::U4(0x41, 0), p.clone()],
+          ] {
+            lits.push((bucket, ps, None));
+          }
+        }
+        None if is_vertical(c) => {
+          let ch = char::from_u32(c).unwrap();
+          lits.push(("string:vertical-space", vec![], Some(format!("\"x\\{}y\"", ch))));
+          lits.push(("string:vertical-space", vec![], Some(format!("\"x{}y\"", ch))));
+          lits.push(("string:vertical-space", vec![], Some(format!("\"{}\"", ch))));
+        }
+        None => {}
+      }
+      // every character written as itself
+      if c != 0x22 && c != 0x5C && !is_vertical(c) {
+        let r = SP::Raw(c);
+        for ps in [vec![r.clone()], vec![r.clone(), x.clone()], vec![x.clone(), r.clone(), y.clone()], vec![x.clone(), r.clone()], vec![r.clone(), SP::Simple('n'), r.clone()]] {
+          lits.push(("string:raw", ps, None));
+        }
+      }
+      // every code point form at the start, in the middle and at the end, next to hexadecimal digits
+      if char::from_u32(c).is_some() {
+        let forms: Vec<SP> = if c < 0x10000 { vec![SP::U4(c, 0), SP::U4(c, 0xF), SP::U6(c, 0), SP::U6(c, 0x2A)] } else { vec![SP::U6(c, 0), SP::U6(c, 0x3F), SP::Sur(c, 0), SP::Sur(c, 0xFF), SP::Sur(c, 0x5A)] };
+        for f in forms {
+          let d = SP::Raw('0' as u32);
+          let e = SP::Raw('F' as u32);
+          for ps in [vec![f.clone(), d.clone(), e.clone()], vec![d.clone(), f.clone(), e.clone()], vec![e.clone(), d.clone(), f.clone()], vec![f.clone(), f.clone()]] {
+            lits.push(("string:code-point", ps, None));
+          }
+        }
+      }
+    }
+    lits.push(("string:empty", vec![], None));
+    let n_random = if thorough { 60_000 } else { 2_500 };
+    for i in 0..n_random {
+      let n = if i % 50 == 0 { 40 + str_rng.below(200) as usize } else { str_rng.below(9) as usize };
+      lits.push(("string:random", (0..n).map(|_| random_piece(&mut str_rng)).collect(), None));
+    }
+    let mut reqs: Vec<String> = vec![];
+    for (_, ps, raw) in &lits {
+      let text = match raw {
+        Some(t) => t.clone(),
+        None => format!("\"{}\"", ps.iter().map(|p| p.text()).collect::<String>()),
+      };
+      reqs.push(format!("(c06 strlit {})", Sexp::str(&text)));
+      reqs.push(format!("(c06 pieces{})", ps.iter().map(|p| format!(" {}", p.sexp())).collect::<String>()));
+    }
+    let answers = model.ask_batch(&reqs);
+    let cps_of = |x: &Sexp| -> Option<String> {
+      let l = x.as_list()?;
+      if l.first()?.as_atom()? != "s" {
+        return None;
+      }
+      l[1..].iter().map(|c| c.as_atom().and_then(|a| a.parse::<u32>().ok()).and_then(char::from_u32)).collect()
+    };
+    for (k, (bucket, ps, raw)) in lits.iter().enumerate() {
+      let (a_lex, a_spec) = (&answers[2 * k], &answers[2 * k + 1]);
+      let text = match raw {
+        Some(t) => t.clone(),
+        None => format!("\"{}\"", ps.iter().map(|p| p.text()).collect::<String>()),
+      };
+      let den: String = ps.iter().map(|p| p.den()).collect();
+      rep.case(&text, text.chars().any(|c| c == '\\' || c as u32 >= 0x80));
+      rep.hit(bucket);
+      let im = run_impl(&text);
+      // the lexer model on the same text
+      let m_lex: Option<Option<String>> = Sexp::parse(a_lex).and_then(|s| {
+        let l = s.as_list()?.to_vec();
+        match l.first()?.as_atom()? {
+          "ok" => {
+            let end: usize = l.get(2)?.as_atom()?.parse().ok()?;
+            if end == text.chars().count() {
+              Some(Some(cps_of(l.get(1)?)?))
+            } else {
+              Some(None)
+            }
+          }
+          "undef" | "eof" | "err" | "other" => Some(None),
+          _ => None,
+        }
+      });
+      match &m_lex {
+        None => rep.disagree(Kind::ImplVsModel, "string", "driver-error", &reqs[2 * k], "", a_lex),
+        Some(m) => {
+          let same = match (&im, m) {
+            (Ok(AstNode::String(a)), Some(b)) => a == b,
+            (Err(e), None) => !e.starts_with("panic"),
+            _ => false,
+          };
+          if !same {
+            rep.disagree(Kind::ImplVsModel, "string", "string literal: the lexer differs from the model of consume_string", &format!("{:?}", text), &show(&im), &format!("{:?}", m));
+          }
+        }
+      }
+      if raw.is_some() {
+        // a vertical space written as itself: no string literal
+        if im.is_ok() {
+          rep.disagree(Kind::ImplVsSpec, "string", SIG_STR_VERTICAL, &format!("{:?}", text), &show(&im), "a syntax error");
+        }
+        continue;
+      }
+      // the Lean reading of the grammar agrees with the one written out here
+      let spec: Option<(bool, String, String)> = Sexp::parse(a_spec).and_then(|s| {
+        let l = s.as_list()?.to_vec();
+        if l.first()?.as_atom()? != "pieces" {
+          return None;
+        }
+        Some((l.get(1)?.as_atom()? == "true", cps_of(l.get(2)?)?, cps_of(l.get(3)?)?))
+      });
+      if spec != Some((true, text.clone(), den.clone())) {
+        rep.disagree(Kind::ImplVsModel, "string", "string literal: the harness' reading of the grammar differs from Dmn.StringLit", &reqs[2 * k + 1], &format!("{:?}", (true, &text, &den)), &format!("{:?}", spec));
+      }
+      // the property
+      if im != Ok(AstNode::String(den.clone())) {
+        let sig = if ps.iter().any(|p| matches!(p, SP::Bs(_))) {
+          SIG_STR_BACKSLASH
+        } else if ps.iter().all(|p| matches!(p, SP::Raw(_))) {
+          SIG_STR_RAW
+        } else {
+          SIG_STR_ESCAPE
+        };
+        rep.disagree(Kind::ImplVsSpec, "string", sig, &format!("{} (pieces {:?})", text, ps), &show(&im), &format!("String({:?})", den));
+      }
+      // the same literal as an operand among others
+      if k % 4 == 0 {
+        let text2 = format!("[{}, \"z\", {}]", text, text);
+        rep.case(&text2, true);
+        rep.hit("string:in a list");
+        let im2 = run_impl(&text2);
+        let want = AstNode::List(vec![AstNode::String(den.clone()), AstNode::String("z".into()), AstNode::String(den.clone())]);
+        if im2 != Ok(want) {
+          rep.disagree(Kind::ImplVsSpec, "string", "string literal: among other tokens the literal does not denote its string", &text2, &show(&im2), &format!("[String({:?}), String(\"z\"), String({:?})]", den, den));
+        }
+      }
+    }
+  }
+
+  // ---------------------------------------------------------------- wide: long flat constructs of every kind
+  // Lists, argument lists, context entries, parameters, iteration and quantified contexts, unary tests, type entries and
+  // the chains of every operator level at lengths around every power of two, 100, 200 (two stack entries per item) and
+  // 1000: the tree is the flat one written out by `wide_case`, whatever the length.
+  {
+    let obs = wide_observations(thorough);
+    if obs.is_empty() {
+      rep.disagree(Kind::ImplVsModel, "wide", "the wide family did not run", "", "", "observations");
+    }
+    let mut sk_reqs = vec![];
+    let mut sk_cases = vec![];
+    for o in &obs {
+      rep.case(&format!("wide|{}|{}", o.construct, o.n), o.n >= 2);
+      rep.hit(&format!("wide:{}", o.construct));
+      rep.hit(&format!("wide:length {}", if o.n < 99 { "< 99" } else if o.n < 256 { "99..255" } else if o.n < 1000 { "256..999" } else { ">= 1000" }));
+      if !o.ok {
+        let text = if o.text.chars().count() > 160 { format!("{} … {}", o.text.chars().take(100).collect::<String>(), o.text.chars().rev().take(40).collect::<Vec<char>>().into_iter().rev().collect::<String>()) } else { o.text.clone() };
+        rep.disagree(Kind::ImplVsSpec, "wide", &format!("a long flat construct does not parse to its flat tree: {}", o.construct), &format!("{} of length {}: {}", o.construct, o.n, text), &o.got, &o.want);
+      }
+      if let Some(sk) = &o.skeleton {
+        sk_reqs.push(format!("(c06 rt minimal {})", sk.sexp()));
+        sk_cases.push((o.construct, o.n, sk.clone()));
+      }
+    }
+    // the reference parser on the same trees (the theorem, observed at these widths) and the tie to the real parser
+    let answers = model.ask_batch(&sk_reqs);
+    for (((construct, n, sk), req), ans) in sk_cases.iter().zip(sk_reqs.iter()).zip(answers.iter()) {
+      let parsed = Sexp::parse(ans);
+      let l = parsed.as_ref().and_then(|s| s.as_list());
+      let got = l.and_then(|l| if l.len() == 4 { Some((toks_of(&l[1]), model_result(&l[2]), model_result(&l[3]))) } else { None });
+      let (toks, m_parse, m_surface) = match got {
+        Some((Some(t), Some(p), Some(s))) => (t, p, s),
+        _ => {
+          rep.disagree(Kind::ImplVsModel, "wide", "driver-error", &req[..req.len().min(300)], "", &ans[..ans.len().min(300)]);
+          continue;
+        }
+      };
+      let expected = sk.ast();
+      rep.hit("wide:reference parser");
+      if m_parse.as_ref() != Some(&expected) {
+        rep.disagree(Kind::ImplVsModel, "wide", "Ref.parse (Ref.print minimal t) differs from t", &format!("{} of length {}", construct, n), &show_model(&m_parse), &short(&format!("{:?}", expected)));
+      }
+      let text = render_plain(&toks);
+      let im = run_impl(&text);
+      if !same(&im, &m_surface) {
+        rep.disagree(Kind::ImplVsModel, "wide", "parse_expression differs from Ref.parseSurface (minimal rendering)", &format!("{} of length {}", construct, n), &show(&im), &show_model(&m_surface));
+      }
+    }
+  }
+
   // ---------------------------------------------------------------- the whole expression language
   let n_ext = if thorough { 120_000 } else { 6_000 };
   let mut ext_rng = rng.fork();
@@ -2589,6 +2815,470 @@ pub fn run(cfg: &Cfg) -> Report {
   rep.exhaustive = true;
   rep.notes.push("operator pairs are enumerated completely in both tiers; triples completely in the thorough tier".into());
   rep
+}
+
+// ------------------------------------------------------------------------------------------
+// string literals: every spelling of every string (grammar rules 35, 64, 65 read piece by piece)
+// ------------------------------------------------------------------------------------------
+
+const SIG_STR_BACKSLASH: &str = "string literal: a backslash before a character that begins no escape sequence is not an ordinary character of the string";
+const SIG_STR_ESCAPE: &str = "string literal: an escape sequence among other pieces does not denote its character";
+const SIG_STR_RAW: &str = "string literal: a character written as itself does not denote itself";
+const SIG_STR_VERTICAL: &str = "string literal: a literal with a vertical space (U+000A..U+000D) written as itself is accepted";
+
+/// One piece of the body of a string literal (mirrors `Dmn.StringLit.Piece`).
+#[derive(Clone, Debug, PartialEq)]
+enum SP {
+  /// a character other than `"`, `\` and vertical space, standing for itself
+  Raw(u32),
+  /// `\` and one of `' " \ n r t`
+  Simple(char),
+  /// `\uXXXX` (code point, case mask: digit i — from the left — in upper case iff bit i is set)
+  U4(u32, u32),
+  /// `\UXXXXXX`
+  U6(u32, u32),
+  /// `\uD8xx\uDCxx`
+  Sur(u32, u32),
+  /// `\` before a character that begins no escape sequence: two ordinary characters
+  Bs(u32),
+}
+
+fn hex_masked(v: u32, digits: u32, mask: u32, first_bit: u32) -> String {
+  (0..digits)
+    .map(|i| {
+      let d = (v >> (4 * (digits - 1 - i))) & 0xF;
+      let c = std::char::from_digit(d, 16).unwrap();
+      if mask & (1 << (first_bit + i)) != 0 {
+        c.to_ascii_uppercase()
+      } else {
+        c
+      }
+    })
+    .collect()
+}
+
+impl SP {
+  fn text(&self) -> String {
+    match self {
+      SP::Raw(c) => char::from_u32(*c).unwrap().to_string(),
+      SP::Simple(l) => format!("\\{}", l),
+      SP::U4(c, m) => format!("\\u{}", hex_masked(*c, 4, *m, 0)),
+      SP::U6(c, m) => format!("\\U{}", hex_masked(*c, 6, *m, 0)),
+      SP::Sur(c, m) => {
+        let (hi, lo) = (0xD800 + ((c - 0x10000) >> 10), 0xDC00 + ((c - 0x10000) & 0x3FF));
+        format!("\\u{}\\u{}", hex_masked(hi, 4, *m, 0), hex_masked(lo, 4, *m, 4))
+      }
+      SP::Bs(c) => format!("\\{}", char::from_u32(*c).unwrap()),
+    }
+  }
+  /// The characters the piece stands for (rule 64: `\'` `\"` `\\` `\n` `\r` `\t`, code points; everything else itself).
+  fn den(&self) -> String {
+    match self {
+      SP::Raw(c) | SP::U4(c, _) | SP::U6(c, _) | SP::Sur(c, _) => char::from_u32(*c).unwrap().to_string(),
+      SP::Simple(l) => match l {
+        'n' => "\n".into(),
+        'r' => "\r".into(),
+        't' => "\t".into(),
+        other => other.to_string(),
+      },
+      SP::Bs(c) => format!("\\{}", char::from_u32(*c).unwrap()),
+    }
+  }
+  fn sexp(&self) -> String {
+    match self {
+      SP::Raw(c) => format!("(raw {})", c),
+      SP::Simple(l) => format!("(simple {})", *l as u32),
+      SP::U4(c, m) => format!("(u4 {} {})", c, m),
+      SP::U6(c, m) => format!("(u6 {} {})", c, m),
+      SP::Sur(c, m) => format!("(sur {} {})", c, m),
+      SP::Bs(c) => format!("(bs {})", c),
+    }
+  }
+}
+
+fn is_vertical(c: u32) -> bool {
+  (0x0A..=0x0D).contains(&c)
+}
+
+/// What `\` followed by `c` is, by the grammar: a simple escape, the start of a code point, or two ordinary characters.
+fn after_backslash(c: u32) -> Option<SP> {
+  match char::from_u32(c)? {
+    '\'' | '"' | '\\' | 'n' | 'r' | 't' => Some(SP::Simple(char::from_u32(c)?)),
+    'u' | 'U' => None,
+    _ if is_vertical(c) => None,
+    _ => Some(SP::Bs(c)),
+  }
+}
+
+fn random_scalar(rng: &mut Rng) -> u32 {
+  const EDGES: [u32; 40] = [
+    0x0, 0x1, 0x8, 0x9, 0xC, 0xE, 0x1F, 0x20, 0x21, 0x27, 0x2F, 0x5B, 0x5D, 0x62, 0x66, 0x7E, 0x7F, 0x80, 0x85, 0xA0, 0xD6, 0xD7, 0x7FF, 0x800, 0x2028, 0x2029, 0xD7FF, 0xE000, 0xFEFF, 0xFFFD, 0xFFFE, 0xFFFF, 0x10000, 0x1F64F,
+    0xFFFFF, 0x100000, 0x10FFFE, 0x10FFFF, 0x3FFFF, 0x40000,
+  ];
+  loop {
+    let c = match rng.below(8) {
+      0 | 1 => 0x20 + rng.below(0x5F) as u32,
+      2 => *rng.pick(&EDGES),
+      3 => rng.below(0x80) as u32,
+      4 => 0x80 + rng.below(0x780) as u32,
+      5 => 0x800 + rng.below(0xF800) as u32,
+      6 => 0x10000 + rng.below(0x10000) as u32,
+      _ => 0x10000 + rng.below(0x100000) as u32,
+    };
+    if char::from_u32(c).is_some() {
+      return c;
+    }
+  }
+}
+
+fn random_piece(rng: &mut Rng) -> SP {
+  loop {
+    let c = random_scalar(rng);
+    let mask = if rng.chance(1, 3) { 0 } else if rng.chance(1, 2) { 0xFF } else { rng.below(256) as u32 };
+    let p = match rng.below(9) {
+      0 | 1 => {
+        if c == 0x22 || c == 0x5C || is_vertical(c) {
+          continue;
+        }
+        SP::Raw(c)
+      }
+      2 => SP::Simple(*rng.pick(&['\'', '"', '\\', 'n', 'r', 't'])),
+      3 if c < 0x10000 => SP::U4(c, mask),
+      4 => SP::U6(c, mask),
+      5 if c >= 0x10000 => SP::Sur(c, mask),
+      6 | 7 => match after_backslash(if rng.chance(2, 3) { rng.below(0x80) as u32 } else { c }) {
+        Some(p) => p,
+        None => continue,
+      },
+      _ => continue,
+    };
+    return p;
+  }
+}
+
+// ------------------------------------------------------------------------------------------
+// wide: long flat constructs of every kind
+// ------------------------------------------------------------------------------------------
+
+/// One observation of the `wide` family, made on a thread with a large stack (the trees of the chain constructs are as
+/// deep as they are long; `Debug`, `PartialEq` and `Drop` of `AstNode` recurse).
+struct WideObs {
+  construct: &'static str,
+  n: usize,
+  text: String,
+  ok: bool,
+  got: String,
+  want: String,
+  /// the tree as the skeleton type, when the construct has one (sent to the reference parser up to a length bound)
+  skeleton: Option<T>,
+}
+
+fn wide_lengths(thorough: bool) -> Vec<usize> {
+  let mut v: Vec<usize> = vec![1, 2, 3, 5, 10, 50, 97, 98, 99, 100, 101, 102, 150, 197, 198, 199, 200, 201, 202, 250, 300, 500, 999, 1000, 1001];
+  let mut p = 4usize;
+  let top = if thorough { 4096 } else { 1024 };
+  while p <= top {
+    v.extend([p - 1, p, p + 1]);
+    p *= 2;
+  }
+  if thorough {
+    v.extend([3000, 5000]);
+  }
+  v.sort();
+  v.dedup();
+  v
+}
+
+/// Every construct of the grammar that takes a sequence of unbounded length (feel.y: `list_tail`,
+/// `positional_parameters_tail`, `named_parameters_tail`, `context_entry_tail`, `formal_parameters` tail,
+/// `iteration_contexts`, `quantified_contexts`, `positive_unary_tests` / `expressions`, `context_type_entry_tail`,
+/// `parameter_types`, qualified names) and the chains that are flat in the text and nested in the tree (binary operators
+/// of every level, unary minus, path, filter, invocation, nested parentheses, lists and `if`): the text, and the tree
+/// it denotes written out directly.
+fn wide_case(construct: &'static str, n: usize) -> Option<(String, AstNode, Option<T>, bool)> {
+  let num = |i: usize| AstNode::Numeric(i.to_string(), String::new());
+  let nm = |s: String| Name::from(s.as_str());
+  let bx = |a: AstNode| Box::new(a);
+  let a = || name_ast(0);
+  let nums: Vec<AstNode> = (1..=n).map(num).collect();
+  let num_text = |sep: &str| (1..=n).map(|i| i.to_string()).collect::<Vec<_>>().join(sep);
+  let tnums: Vec<T> = (1..=n).map(T::Num).collect();
+  let chain = |op: Op, mk: fn(Box<AstNode>, Box<AstNode>) -> AstNode, sym: &str| {
+    let mut t = num(1);
+    let mut sk = T::Num(1);
+    for i in 2..=n {
+      t = mk(Box::new(t), Box::new(num(i)));
+      sk = T::Bin(op, Box::new(sk), Box::new(T::Num(i)));
+    }
+    (num_text(&format!(" {} ", sym)), t, Some(sk), false)
+  };
+  Some(match construct {
+    "list items" => (format!("[{}]", num_text(", ")), AstNode::List(nums), Some(T::List(tnums)), false),
+    "list items, no blanks" => (format!("[{}]", num_text(",")), AstNode::List(nums), None, false),
+    "positional arguments" => (
+      format!("a({})", num_text(", ")),
+      AstNode::FunctionInvocation(bx(a()), bx(AstNode::PositionalParameters(nums))),
+      Some(T::Call(Box::new(T::Name(0)), tnums)),
+      false,
+    ),
+    "named arguments" => (
+      format!("a({})", (1..=n).map(|i| format!("p{}: {}", i, i)).collect::<Vec<_>>().join(", ")),
+      AstNode::FunctionInvocation(bx(a()), bx(AstNode::NamedParameters((1..=n).map(|i| AstNode::NamedParameter(bx(AstNode::ParameterName(nm(format!("p{}", i)))), bx(num(i)))).collect()))),
+      None,
+      false,
+    ),
+    "context entries" => (
+      format!("{{{}}}", (1..=n).map(|i| format!("k{}: {}", i, i)).collect::<Vec<_>>().join(", ")),
+      AstNode::Context((1..=n).map(|i| AstNode::ContextEntry(bx(AstNode::ContextEntryKey(nm(format!("k{}", i)))), bx(num(i)))).collect()),
+      None,
+      false,
+    ),
+    "context entries, string keys" => (
+      format!("{{{}}}", (1..=n).map(|i| format!("\"k {}\": {}", i, i)).collect::<Vec<_>>().join(", ")),
+      AstNode::Context((1..=n).map(|i| AstNode::ContextEntry(bx(AstNode::ContextEntryKey(nm(format!("k {}", i)))), bx(num(i)))).collect()),
+      None,
+      false,
+    ),
+    "formal parameters" => (
+      format!("function ({}) p1", (1..=n).map(|i| format!("p{}", i)).collect::<Vec<_>>().join(", ")),
+      AstNode::FunctionDefinition(
+        bx(AstNode::FormalParameters((1..=n).map(|i| AstNode::FormalParameter(bx(AstNode::ParameterName(nm(format!("p{}", i)))), bx(AstNode::FeelType(FeelType::Any)))).collect())),
+        bx(AstNode::FunctionBody(bx(AstNode::Name(nm("p1".into()))), false)),
+      ),
+      None,
+      false,
+    ),
+    "typed formal parameters" => (
+      format!("function ({}) p1", (1..=n).map(|i| format!("p{}: number", i)).collect::<Vec<_>>().join(", ")),
+      AstNode::FunctionDefinition(
+        bx(AstNode::FormalParameters((1..=n).map(|i| AstNode::FormalParameter(bx(AstNode::ParameterName(nm(format!("p{}", i)))), bx(AstNode::FeelType(FeelType::Number)))).collect())),
+        bx(AstNode::FunctionBody(bx(AstNode::Name(nm("p1".into()))), false)),
+      ),
+      None,
+      false,
+    ),
+    "in-list items" if n >= 2 => (
+      format!("a in ({})", num_text(", ")),
+      AstNode::In(bx(a()), bx(AstNode::ExpressionList(nums))),
+      Some(T::InList(Box::new(T::Name(0)), tnums)),
+      false,
+    ),
+    "iteration contexts of for" => (
+      format!("for {} return x1", (1..=n).map(|i| format!("x{} in a", i)).collect::<Vec<_>>().join(", ")),
+      AstNode::For(
+        bx(AstNode::IterationContexts((1..=n).map(|i| AstNode::IterationContextSingle(bx(AstNode::Name(nm(format!("x{}", i)))), bx(a()))).collect())),
+        bx(AstNode::EvaluatedExpression(bx(AstNode::Name(nm("x1".into()))))),
+      ),
+      None,
+      false,
+    ),
+    "range iteration contexts of for" => (
+      format!("for {} return x1", (1..=n).map(|i| format!("x{} in 1..{}", i, i)).collect::<Vec<_>>().join(", ")),
+      AstNode::For(
+        bx(AstNode::IterationContexts((1..=n).map(|i| AstNode::IterationContextRange(bx(AstNode::Name(nm(format!("x{}", i)))), bx(num(1)), bx(num(i)))).collect())),
+        bx(AstNode::EvaluatedExpression(bx(AstNode::Name(nm("x1".into()))))),
+      ),
+      None,
+      false,
+    ),
+    "quantified contexts of some" | "quantified contexts of every" => {
+      let ctxs = bx(AstNode::QuantifiedContexts((1..=n).map(|i| AstNode::QuantifiedContext(bx(AstNode::Name(nm(format!("x{}", i)))), bx(a()))).collect()));
+      let sat = bx(AstNode::Satisfies(bx(AstNode::Name(nm("x1".into())))));
+      let every = construct.ends_with("every");
+      (
+        format!("{} {} satisfies x1", if every { "every" } else { "some" }, (1..=n).map(|i| format!("x{} in a", i)).collect::<Vec<_>>().join(", ")),
+        if every { AstNode::Every(ctxs, sat) } else { AstNode::Some(ctxs, sat) },
+        None,
+        false,
+      )
+    }
+    "unary tests" => (num_text(", "), AstNode::ExpressionList(nums), None, true),
+    "negated unary tests" => (format!("not({})", num_text(", ")), AstNode::NegatedList(nums), None, true),
+    "context type entries" => (
+      format!("a instance of context<{}>", (1..=n).map(|i| format!("k{}: number", i)).collect::<Vec<_>>().join(", ")),
+      AstNode::InstanceOf(bx(a()), bx(AstNode::ContextType((1..=n).map(|i| AstNode::ContextTypeEntry(bx(AstNode::ContextTypeEntryKey(nm(format!("k{}", i)))), bx(AstNode::FeelType(FeelType::Number)))).collect()))),
+      None,
+      false,
+    ),
+    "function type parameters" => (
+      format!("a instance of function<{}> -> string", (1..=n).map(|_| "number").collect::<Vec<_>>().join(", ")),
+      AstNode::InstanceOf(bx(a()), bx(AstNode::FunctionType(bx(AstNode::ParameterTypes((1..=n).map(|_| AstNode::FeelType(FeelType::Number)).collect())), bx(AstNode::FeelType(FeelType::String))))),
+      None,
+      false,
+    ),
+    "qualified name segments" => (
+      // bound single-word names (the token boundaries of unbound names joined by `.` are C10's)
+      format!("a instance of {}", (1..=n).map(|i| NAMES[i % 10].to_string()).collect::<Vec<_>>().join(".")),
+      AstNode::InstanceOf(bx(a()), bx(AstNode::QualifiedName((1..=n).map(|i| AstNode::QualifiedNameSegment(Name::from(NAMES[i % 10]))).collect()))),
+      None,
+      false,
+    ),
+    // chains: flat in the text, nested in the tree
+    "chain of or" => chain(Op::Or, AstNode::Or, "or"),
+    "chain of and" => chain(Op::And, AstNode::And, "and"),
+    "chain of +" => chain(Op::Add, AstNode::Add, "+"),
+    "chain of -" => chain(Op::Sub, AstNode::Sub, "-"),
+    "chain of *" => chain(Op::Mul, AstNode::Mul, "*"),
+    "chain of /" => chain(Op::Div, AstNode::Div, "/"),
+    "chain of **" => chain(Op::Exp, AstNode::Exp, "**"),
+    "chain of in" => {
+      // `in` associates to the right (feel.y:79)
+      let mut t = num(n);
+      let mut sk = T::Num(n);
+      for i in (1..n).rev() {
+        t = AstNode::In(bx(num(i)), bx(t));
+        sk = T::Bin(Op::In, Box::new(T::Num(i)), Box::new(sk));
+      }
+      (num_text(" in "), t, Some(sk), false)
+    }
+    "chain of + and *" => {
+      // 1 * 1 + 2 * 2 + …: sums of products
+      let prod = |i: usize| AstNode::Mul(bx(num(i)), bx(num(i)));
+      let mut t = prod(1);
+      for i in 2..=n {
+        t = AstNode::Add(bx(t), bx(prod(i)));
+      }
+      ((1..=n).map(|i| format!("{} * {}", i, i)).collect::<Vec<_>>().join(" + "), t, None, false)
+    }
+    "chain of unary minus" => {
+      let mut t = num(1);
+      let mut sk = T::Num(1);
+      for _ in 0..n {
+        t = AstNode::Neg(bx(t));
+        sk = T::Neg(Box::new(sk));
+      }
+      (format!("{}1", "- ".repeat(n)), t, Some(sk), false)
+    }
+    "path segments" => {
+      let mut t = a();
+      for i in 1..=n {
+        t = AstNode::Path(bx(t), bx(name_ast(i % 10)));
+      }
+      (format!("a{}", (1..=n).map(|i| format!(".{}", NAMES[i % 10])).collect::<String>()), t, None, false)
+    }
+    "filters in a row" => {
+      let mut t = a();
+      let mut sk = T::Name(0);
+      for i in 1..=n {
+        t = AstNode::Filter(bx(t), bx(num(i)));
+        sk = T::Filter(Box::new(sk), Box::new(T::Num(i)));
+      }
+      (format!("a{}", (1..=n).map(|i| format!("[{}]", i)).collect::<String>()), t, Some(sk), false)
+    }
+    "invocations in a row" => {
+      let mut t = a();
+      let mut sk = T::Name(0);
+      for i in 1..=n {
+        t = AstNode::FunctionInvocation(bx(t), bx(AstNode::PositionalParameters(vec![num(i)])));
+        sk = T::Call(Box::new(sk), vec![T::Num(i)]);
+      }
+      (format!("a{}", (1..=n).map(|i| format!("({})", i)).collect::<String>()), t, Some(sk), false)
+    }
+    "nested parentheses" => (format!("{}1{}", "(".repeat(n), ")".repeat(n)), num(1), None, false),
+    "nested lists" => {
+      let mut t = num(1);
+      for _ in 0..n {
+        t = AstNode::List(vec![t]);
+      }
+      (format!("{}1{}", "[".repeat(n), "]".repeat(n)), t, None, false)
+    }
+    "else-if chain" => {
+      let mut t = num(0);
+      for i in (1..=n).rev() {
+        t = AstNode::If(bx(a()), bx(num(i)), bx(t));
+      }
+      (format!("{}0", (1..=n).map(|i| format!("if a then {} else ", i)).collect::<String>()), t, None, false)
+    }
+    "nested contexts" => {
+      let mut t = num(1);
+      for _ in 0..n {
+        t = AstNode::Context(vec![AstNode::ContextEntry(bx(AstNode::ContextEntryKey(nm("k".into()))), bx(t))]);
+      }
+      (format!("{}1{}", "{k: ".repeat(n), "}".repeat(n)), t, None, false)
+    }
+    _ => return None,
+  })
+}
+
+const WIDE_CONSTRUCTS: [&str; 36] = [
+  "list items",
+  "list items, no blanks",
+  "positional arguments",
+  "named arguments",
+  "context entries",
+  "context entries, string keys",
+  "formal parameters",
+  "typed formal parameters",
+  "in-list items",
+  "iteration contexts of for",
+  "range iteration contexts of for",
+  "quantified contexts of some",
+  "quantified contexts of every",
+  "unary tests",
+  "negated unary tests",
+  "context type entries",
+  "function type parameters",
+  "qualified name segments",
+  "chain of or",
+  "chain of and",
+  "chain of +",
+  "chain of -",
+  "chain of *",
+  "chain of /",
+  "chain of **",
+  "chain of in",
+  "chain of + and *",
+  "chain of unary minus",
+  "path segments",
+  "filters in a row",
+  "invocations in a row",
+  "nested parentheses",
+  "nested lists",
+  "else-if chain",
+  "nested contexts",
+  "",
+];
+
+fn wide_observations(thorough: bool) -> Vec<WideObs> {
+  let lengths = wide_lengths(thorough);
+  let work = move || {
+    let mut out = vec![];
+    for construct in WIDE_CONSTRUCTS {
+      for &n in &lengths {
+        // the constructs that nest are as deep as they are long: the recursive consumers of the tree set the bound
+        let nests = construct.starts_with("chain") || construct.starts_with("nested") || construct.ends_with("in a row") || construct == "path segments" || construct == "else-if chain";
+        if nests && n > 2100 {
+          continue;
+        }
+        // a run of names joined by `.` is re-scanned by the lexer for every prefix of every suffix (cubic)
+        // (so is a text in which words, keywords and numbers follow each other without any other token: `if a then 1 else if …`)
+        if (construct == "path segments" || construct == "qualified name segments" || construct == "else-if chain") && n > 130 {
+          continue;
+        }
+        let t0 = std::time::Instant::now();
+        let (text, want, skeleton, unary) = match wide_case(construct, n) {
+          Some(c) => c,
+          None => continue,
+        };
+        crate::util::beat();
+        let got = if unary { run_impl_ut(&text) } else { run_impl(&text) };
+        let ok = got.as_ref().ok() == Some(&want);
+        let (g, w) = if ok { (String::new(), String::new()) } else { (show(&got), short(&format!("{:?}", want))) };
+        // dropping a deep tree recurses as well: do it here, on the large stack
+        drop(got);
+        drop(want);
+        out.push(WideObs { construct, n, text, ok, got: g, want: w, skeleton: if n <= 130 { skeleton } else { None } });
+        if std::env::var("VERIF_WIDE_TIMES").is_ok() && t0.elapsed().as_millis() > 200 {
+          eprintln!("wide: {} of length {}: {} ms", construct, n, t0.elapsed().as_millis());
+        }
+      }
+    }
+    out
+  };
+  match std::thread::Builder::new().stack_size(1 << 30).spawn(work) {
+    Ok(h) => h.join().unwrap_or_default(),
+    Err(_) => vec![],
+  }
 }
 
 fn probe() -> ! {
